@@ -233,7 +233,7 @@ def maps_stream(R, n=None):
         while inS(c):
             c = next(v for (u, v) in iv if u <= c < v)
         S = {x for x in range(first, last + 1) if inS(x)}
-        want.append("maps %s set=%s clr=%d bits=%s" % (" ".join(str(b) for (_, b, _, _) in regs), min(ge) if ge else "-", c, expect_bits(S, first, last)))
+        want.append(" ".join(["maps"] + [str(b) for (_, b, _, _) in regs] + ["set=%s" % (min(ge) if ge else "-"), "clr=%d" % c, "bits=%s" % expect_bits(S, first, last)]))
     return lines, want
 
 
